@@ -177,7 +177,7 @@ func (r *Rng) distinctSortedOrNil(k, n int) []int {
 // peerState is the scripted TCP peer at run time.
 type peerState struct {
 	c14Peer
-	started bool // its SYN has been sent
+	started   bool // its SYN has been sent
 	ip        net.IP
 	mac       net.HardwareAddr // the MAC frames to this peer must carry
 	seq       uint32           // next sequence number to send
